@@ -1,6 +1,7 @@
 package checks
 
 import (
+	"bytes"
 	"strings"
 	"encoding/binary"
 	"fmt"
@@ -363,6 +364,39 @@ func runC14(r *mc.Run) {
 			tp(p).AnyMrTd = [][]byte{w}
 			add("nearmiss/any_mr_td/"+name, p)
 		})
+		// long lists (counts around thresholds an implementation might introduce), the member at every / selected positions
+		for _, n := range []int{8, 9, 16, 17, 33, 64, 65, 129, 256, 257} {
+			poss := []int{-1, 0, 1, n / 2, n - 2, n - 1}
+			if n <= 17 {
+				poss = []int{-1}
+				for q := 0; q < n; q++ {
+					poss = append(poss, q)
+				}
+			}
+			for _, q := range poss {
+				for _, order := range []string{"ascending", "descending", "hashed"} {
+					p := &ccpb.Policy{}
+					for i := 0; i < n; i++ {
+						var e []byte
+						switch order {
+						case "ascending":
+							e = bytes.Repeat([]byte{byte(i)}, 48)
+							e[0] = byte(i >> 8)
+						case "descending":
+							e = bytes.Repeat([]byte{byte(255 - i)}, 48)
+							e[0] = byte(255 - i>>8)
+						default:
+							e = world.Fill(fmt.Sprintf("c14-long-%d", i), 48)
+						}
+						if i == q {
+							e = append([]byte(nil), mr...)
+						}
+						tp(p).AnyMrTd = append(tp(p).AnyMrTd, e)
+					}
+					add(fmt.Sprintf("nearmiss/any_mr_td/long-n=%d,member@%d,%s", n, q, order), p)
+				}
+			}
+		}
 		// the quote's MR_TD straddling two neighbouring entries (a search over the concatenated list finds it)
 		for k := 1; k < 48; k++ {
 			a := append(append([]byte{}, world.Fill("c14-straddle-a", k)...), mr[:48-k]...)
